@@ -165,8 +165,14 @@ def summarize(prop, tier, results, fx, t0, extra_cov=None, level='other', out=sy
             if shown < 2 or not o.ok:
                 samples.append(o.as_dict())
                 shown += o.ok
+    printed = set()
     for o, hit in known_hits:
-        print(f'KNOWN-FINDING: property={prop} rule={o.rule} where={o.where}:{o.line} {hit.get("what", "")}', file=out)
+        # one line per listed finding and instance (an instance may be met by several obligations, e.g. once per symbol size)
+        k = (hit.get('id'), o.rule, o.where, o.key)
+        if k in printed:
+            continue
+        printed.add(k)
+        print(f'KNOWN-FINDING: property={prop} rule={o.rule} where={o.where}:{o.line} instance={o.key} -- {hit.get("what", "")}', file=out)
     replay_paths = []
     for o, _ in violations:
         path = write_replay(prop, o) if write else '-'
